@@ -17,7 +17,9 @@ def new_obj(ip, key, tag=None, **fields):
     cls = ip.repo(key)
     if not isinstance(cls, RepoClass):
         raise Unsupported(f"{key} is not a class")
-    return Obj(cls, fields, tag=tag)
+    o = Obj(cls, fields, tag=tag)
+    o.partial = True  # laid out by the harness, not by the real constructor
+    return o
 
 
 def method(ip, obj, name):
